@@ -41,19 +41,27 @@ Definition single (x : name) (l : lit) : name -> option lit := fun y => if y =? 
 Definition bound (c : cfg) (s : st) (sigma : name -> option lit) : Prop :=
   forall x l, sigma x = Some l -> fst (load c (s_clos s) (s_env s) x) = Some (value_of_lit l).
 
-(* expressions without calls (macro / function calls run statements; everything else touches the
-   state only through context look-ups) *)
-Fixpoint pure (e : expr) {struct e} : bool :=
+(* expressions whose calls all go to callees accepted by [ok] *)
+Fixpoint callsafe (ok : name -> bool) (e : expr) {struct e} : bool :=
   match e with
   | EConst _ | EVar _ => true
-  | EList items => forallb pure items
-  | ENeg a | ENot a | EAttr a _ => pure a
-  | EBin _ a b | EAnd a b | EOr a b | EItem a b => pure a && pure b
-  | ECmp a rest => pure a && forallb (fun p => pure (snd p)) rest
-  | EIf c t f => pure c && pure t && match f with Some f => pure f | None => true end
-  | EFilter _ a args | ETest _ a args _ => pure a && forallb pure args
-  | ECall _ _ _ => false
+  | EList items => forallb (callsafe ok) items
+  | ENeg a | ENot a | EAttr a _ => callsafe ok a
+  | EBin _ a b | EAnd a b | EOr a b | EItem a b => callsafe ok a && callsafe ok b
+  | ECmp a rest => callsafe ok a && forallb (fun p => callsafe ok (snd p)) rest
+  | EIf c t f => callsafe ok c && callsafe ok t && match f with Some f => callsafe ok f | None => true end
+  | EFilter _ a args | ETest _ a args _ => callsafe ok a && forallb (callsafe ok) args
+  | ECall f args kwargs => ok f && forallb (callsafe ok) args && forallb (fun p => callsafe ok (snd p)) kwargs
   end.
+
+(* expressions without calls (a macro call runs statements; everything else touches the state
+   only through context look-ups) *)
+Definition pure (e : expr) : bool := callsafe (fun _ => false) e.
+
+(* the name [f] does not resolve to a macro in the scope of [s]: a call of [f] is then a call of a
+   builtin function (range), or fails (unknown function / not callable) - it runs no statements *)
+Definition not_macro (c : cfg) (s : st) (f : name) : Prop :=
+  forall mc cl, fst (load c (s_clos s) (s_env s) f) <> Some (VMacro mc cl).
 
 Definition maxmap {X} (f : X -> nat) : list X -> nat :=
   fix go (l : list X) : nat := match l with [] => O | x :: r => Nat.max (f x) (go r) end.
